@@ -826,9 +826,10 @@ void analyse(const std::vector<Worker *> &ws, int N, const std::string &desc, Ru
         std::set<uint64_t> dead;
         if (reg_dfs(h, (uint32_t) ((1ull << h.size()) - 1), crl_init[is] < 0 ? 0 : 1 + crl_init[is], dead)) continue;
         std::vector<const Ev *> v; for (auto &x : h) v.push_back(x.src);
+        std::string hist = dump(v); for (auto &ch : hist) if (ch == '\n') ch = ';';
         VF_FAIL("not-serializable:crl-cache", "no sequential order of the operations on the cached CRL of %s (initially %s; consistent with real-time precedence) reproduces the observed revocation outcomes "
-                "(a leaf revoked by every version that was in the cache during its validation must be rejected, one revoked by none must pass):%s\n  %s", issuer_name[is],
-                crl_init[is] < 0 ? "none" : g_crlv[is][crl_init[is]].file, dump(v).c_str(), desc.c_str());
+                "(a leaf revoked by every version that was in the cache during its validation must be rejected, one revoked by none must pass):%s || %s", issuer_name[is],
+                crl_init[is] < 0 ? "none" : g_crlv[is][crl_init[is]].file, hist.c_str(), desc.c_str());
     }
     // ---- overlap measurement (non-triviality)
     for (size_t i = 0; i < all.size(); i++) for (size_t j = i + 1; j < all.size(); j++) {
@@ -902,7 +903,7 @@ Program generate(vf::Tape &t) {
         int v = pick_crl_version(t, p.crl_theme, is);
         if (k != 3) { p.crl_init[is] = v; p.crl_init_auth[is] = k == 2; }
     }
-    int cap = p.N == 8 ? 3 : p.N == 4 ? 5 : 8;
+    int cap = p.N == 8 ? 3 : p.N == 4 ? 4 : 6;
     for (int i = 0; i < p.N; i++) {
         int n = 1 + (int) t.below((uint64_t) cap);
         for (int k = 0; k < n; k++) {
